@@ -38,6 +38,21 @@ perpendicular (0 < |g.b1| <= 1e-10 |g|) may be treated as perpendicular; this mo
 most the tilt tau <= 1e-10/|b1| (triangle inequality on the sphere), which is added to the bound
 for exactly those cases.  g = 0 has no direction (e_y undefined) and is not tested; |g| = 2^-30
 probes the limit.
+
+Hardening round (HARDENING.md items 1, 2, 4-7, 9, 11):
+5. Operand forms (GravityDefs!ValidForm, judged by Trace_Gravity!JudgePhys): one extra call per
+   (orientation, |g|, tilt) in a form from EXTRA_FORMS - wavelength 2-d in both dim orders, strided, along
+   the detector dim, 0-d, binned; wavelength in nm / m, gravity in cm/s^2, the two beams in different length
+   units; the incident beam per pixel, also MIXED (every other pixel has the untilted beam: the documented
+   dispatch then takes the general path for the whole call, GravityDefs!BatchClass; model: invariant
+   MixedBatch, negative control Neg_Gravity_all_pixels).  Operands re-expressed in another unit by a float
+   multiplication get the allowance EXTRA_ALLOW64 derived at its definition.
+6. The dispatch threshold is an off-plane component in length units of the incident beam, not an angle: tilts
+   with a 32 m and a 2^-6 m incident beam sit on the other side of the threshold than their angle suggests.
+7. beam_aligned_unit_vectors itself ("frame" events): against the integer numerators EyN, ZpN, ExN exported by
+   TLC for lattice setups (re-derived by Trace_Gravity!JudgeFrame) and against the mpmath frame for tilts.
+8. Second use: some calls are repeated with the SAME operand objects (second result judged, operands compared
+   bit-for-bit with what was passed); a sample of all calls is repeated at the end of the run in reverse order.
 """
 
 from __future__ import annotations
@@ -113,49 +128,132 @@ def _phi_of_class(c):
 
 
 # ------------------------------------------------------------------------------ calling the code
-def _call(b1, unit_b, dets, lams, lam_dtype, gvec, binned):
-    """Returns dict with arrays shaped [n_det, n_lam] (tt, phi, refl or None), outcome strings."""
+class _ShapeError(Exception):
+    """a result whose dims are not those the operands span (not a ValueError: that is the refusal)"""
+
+
+WL_FACTOR = {'angstrom': 1.0, 'nm': 0.1, 'm': 1e-10}  # nominal angstrom value -> value in the unit
+G_FACTOR = {'m/s^2': 1.0, 'cm/s^2': 100.0}
+L_FACTOR = {'m': 1.0, 'mm': 1000.0}
+
+
+def _form(wl='outer', ib='one', wl_unit='angstrom', g_unit='m/s^2', ib_unit='m', sb_unit='m'):
+    return {'wl': wl, 'ib': ib, 'wl_unit': wl_unit, 'g_unit': g_unit, 'ib_unit': ib_unit, 'sb_unit': sb_unit}
+
+
+def _same_bits(a, b):
+    a, b = np.ascontiguousarray(a), np.ascontiguousarray(b)
+    return a.shape == b.shape and a.dtype == b.dtype and a.tobytes() == b.tobytes()
+
+
+def _call(b1, dets, lams, lam_dtype, gvec, form, scalar_index=0, twice=False):
+    """One call of both functions in the operand form `form` (GravityDefs!ValidForm).
+    b1: one incident beam or (form ib per_pixel*) one per detector, dets: scattered beams - numbers in the
+    units of the form; lams: nominal wavelengths in angstrom (re-expressed here in form['wl_unit']); gvec in
+    m/s^2 (re-expressed in form['g_unit']).  Returns arrays shaped [n_det, n_lam] (tt, phi, refl or None) with a
+    boolean mask `present` (forms per_detector / scalar fill only one wavelength per detector), outcome strings,
+    whether the operands still hold the bits that were passed, and - with twice - the same from a second
+    call with the SAME operand objects under the key 'second'."""
     from scippneutron.conversion import beamline as bl
 
     nd, nl = len(dets), len(lams)
-    ib = sc.vector(np.asarray(b1, dtype='float64'), unit=unit_b)
-    sb = sc.vectors(dims=['det'], values=np.asarray(dets, dtype='float64'), unit=unit_b)
-    gv = sc.vector(np.asarray(gvec, dtype='float64'), unit='m/s^2')
+    wl_form, binned = form['wl'], form['wl'] == 'binned'
+    lam_vals = np.asarray(lams, dtype='float64') * WL_FACTOR[form['wl_unit']]
+    if form['ib'] == 'one':
+        ib = sc.vector(np.asarray(b1, dtype='float64'), unit=form['ib_unit'])
+    else:
+        ib = sc.vectors(dims=['det'], values=np.asarray(b1, dtype='float64'), unit=form['ib_unit'])
+    sb = sc.vectors(dims=['det'], values=np.asarray(dets, dtype='float64'), unit=form['sb_unit'])
+    gv = sc.vector(np.asarray(gvec, dtype='float64') * G_FACTOR[form['g_unit']], unit=form['g_unit'])
+    present = np.ones((nd, nl), dtype=bool)
     if binned:
-        flat = sc.array(dims=['event'], values=np.tile(np.asarray(lams, dtype=lam_dtype), nd), unit='angstrom',
-                        dtype=lam_dtype)
+        flat = sc.array(dims=['event'], values=np.tile(lam_vals.astype(lam_dtype), nd), unit=form['wl_unit'], dtype=lam_dtype)
         begin = sc.array(dims=['det'], values=np.arange(nd) * nl, unit=None, dtype='int64')
         wl = sc.bins(dim='event', data=flat, begin=begin, end=begin + sc.index(nl))
+        want_dims = {'det'}
+    elif wl_form == 'outer':
+        wl = sc.array(dims=['wavelength'], values=lam_vals.astype(lam_dtype), unit=form['wl_unit'], dtype=lam_dtype)
+        want_dims = {'det', 'wavelength'}
+    elif wl_form == 'strided':
+        big = np.full(2 * nl, 3.25, dtype=lam_dtype)
+        big[::2] = lam_vals
+        wl = sc.array(dims=['wavelength'], values=big, unit=form['wl_unit'], dtype=lam_dtype)['wavelength', ::2]
+        want_dims = {'det', 'wavelength'}
+    elif wl_form == 'grid':
+        wl = sc.array(dims=['det', 'wavelength'], values=np.tile(lam_vals.astype(lam_dtype), (nd, 1)), unit=form['wl_unit'],
+                      dtype=lam_dtype)
+        want_dims = {'det', 'wavelength'}
+    elif wl_form == 'grid_transposed':
+        wl = sc.array(dims=['wavelength', 'det'], values=np.tile(lam_vals.astype(lam_dtype)[:, None], (1, nd)),
+                      unit=form['wl_unit'], dtype=lam_dtype)
+        want_dims = {'det', 'wavelength'}
+    elif wl_form == 'per_detector':
+        wl = sc.array(dims=['det'], values=np.array([lam_vals[i % nl] for i in range(nd)], dtype=lam_dtype),
+                      unit=form['wl_unit'], dtype=lam_dtype)
+        present[:] = False
+        for i in range(nd):
+            present[i, i % nl] = True
+        want_dims = {'det'}
+    elif wl_form == 'scalar':
+        wl = sc.scalar(float(lam_vals[scalar_index]), unit=form['wl_unit'], dtype=lam_dtype)
+        present[:] = False
+        present[:, scalar_index] = True
+        want_dims = {'det'}
     else:
-        wl = sc.array(dims=['wavelength'], values=np.asarray(lams, dtype=lam_dtype), unit='angstrom', dtype=lam_dtype)
+        raise MachineryError(f'unknown wavelength form {wl_form}')
+
+    def wl_bits():
+        return np.array(wl.bins.constituents['data'].values if binned else wl.values, copy=True)
+
+    before = (np.array(ib.values, copy=True), np.array(sb.values, copy=True), np.array(gv.values, copy=True), wl_bits())
 
     def grid(v):
         if binned:
             d = v.bins.constituents['data']
             return d.values.reshape(nd, nl), d.dtype, d.unit
+        if set(v.dims) != want_dims:
+            raise _ShapeError(f'result has dims {v.dims}, expected {sorted(want_dims)}')
+        if want_dims == {'det'}:
+            col = np.asarray(v.values).reshape(nd)
+            out = np.full((nd, nl), np.nan)
+            for i in range(nd):
+                for j in range(nl):
+                    if present[i, j]:
+                        out[i, j] = col[i]
+            return out, v.dtype, v.unit
         return v.transpose(['det', 'wavelength']).values, v.dtype, v.unit
 
-    out = {'returned': True, 'exc': None}
     want_dt = sc.DType.float32 if lam_dtype == 'float32' else sc.DType.float64
-    try:
-        r = bl.scattering_angles_with_gravity(incident_beam=ib, scattered_beam=sb, wavelength=wl, gravity=gv)
-        out['tt'], dt1, u1 = grid(r['two_theta'])
-        out['phi'], dt2, u2 = grid(r['phi'])
-        out['dtype_ok'] = bool(dt1 == want_dt and dt2 == want_dt and u1 == sc.Unit('rad') and u2 == sc.Unit('rad'))
-    except Exception as e:  # noqa: BLE001
-        out.update(returned=False, exc=repr(e), dtype_ok=False)
-    try:
-        rr = bl.scattering_angle_in_yz_plane(incident_beam=ib, scattered_beam=sb, wavelength=wl, gravity=gv)
-        out['refl'], _, _ = grid(rr)
-        out['refl_kind'] = 'angle'
-    except ValueError:
-        out['refl'], out['refl_kind'] = None, 'refused'
-    except Exception as e:  # noqa: BLE001
-        out['refl'], out['refl_kind'], out['refl_exc'] = None, 'error', repr(e)
-    try:
-        out['free'] = bl.two_theta(incident_beam=ib, scattered_beam=sb).values
-    except Exception as e:  # noqa: BLE001
-        out['free'] = None
+
+    def once():
+        out = {'returned': True, 'exc': None, 'present': present}
+        try:
+            r = bl.scattering_angles_with_gravity(incident_beam=ib, scattered_beam=sb, wavelength=wl, gravity=gv)
+            out['tt'], dt1, u1 = grid(r['two_theta'])
+            out['phi'], dt2, u2 = grid(r['phi'])
+            out['dtype_ok'] = bool(dt1 == want_dt and dt2 == want_dt and u1 == sc.Unit('rad') and u2 == sc.Unit('rad'))
+        except Exception as e:  # noqa: BLE001
+            out.update(returned=False, exc=repr(e), dtype_ok=False)
+        try:
+            rr = bl.scattering_angle_in_yz_plane(incident_beam=ib, scattered_beam=sb, wavelength=wl, gravity=gv)
+            out['refl'], _, _ = grid(rr)
+            out['refl_kind'] = 'angle'
+        except ValueError:
+            out['refl'], out['refl_kind'] = None, 'refused'
+        except Exception as e:  # noqa: BLE001  (includes _ShapeError: a result with unexpected dims)
+            out['refl'], out['refl_kind'], out['refl_exc'] = None, 'error', repr(e)
+        try:
+            free = np.asarray(bl.two_theta(incident_beam=ib, scattered_beam=sb).values).reshape(nd)
+            out['free'] = free
+        except Exception:  # noqa: BLE001
+            out['free'] = None
+        after = (ib.values, sb.values, gv.values, wl_bits())
+        out['inputs_kept'] = all(_same_bits(x, y) for x, y in zip(before, after))
+        return out
+
+    out = once()
+    if twice:
+        out['second'] = once()
     return out
 
 
@@ -168,7 +266,7 @@ def _observe(res, i, j, ref, ref_low, free_ref, f32):
     cond_max = COND32 if f32 else COND64
     o = {'returned': bool(res['returned']), 'dtype_ok': bool(res['dtype_ok']), 'e_tt': 0, 'e_phi': 0,
          'phi_checked': False, 'lowered': False, 'refl': res['refl_kind'], 'refl_checked': False, 'e_refl': 0,
-         'cmp': 0, 'cmp_sig': False, 'e_free': 0, 'judged': False}
+         'cmp': 0, 'cmp_sig': False, 'e_free': 0, 'judged': False, 'inputs_kept': bool(res.get('inputs_kept', True))}
     if not res['returned']:
         return o
     tt, phi = float(res['tt'][i][j]), float(res['phi'][i][j])
@@ -195,6 +293,42 @@ def _observe(res, i, j, ref, ref_low, free_ref, f32):
     return o
 
 
+# ------------------------------------------------------------------------------ the beam-aligned frame
+def _int_frame(ey, zp, ex):
+    """unit vectors (mpf) from the integer numerators of the specification (GravityDefs!EyN, ZpN, ExN)"""
+    out = {}
+    for k, v in (('ey', ey), ('ez', zp), ('ex', ex)):
+        n = mpmath.sqrt(G.mpf(sum(int(x) * int(x) for x in v)))
+        out[k] = tuple(G.mpf(int(x)) / n for x in v)
+    return out
+
+
+def _frame_obs(b1, unit_b, gvec, want):
+    """beam_aligned_unit_vectors on one incident beam against the documented basis `want` (mpf unit vectors);
+    errors in units of 1e-16 (largest component error; largest deviation of the six inner products)."""
+    from scippneutron.conversion import beamline as bl
+
+    o = {'returned': False, 'unit_ok': False, 'e_frame': 0, 'ortho': 0}
+    try:
+        r = bl.beam_aligned_unit_vectors(incident_beam=sc.vector(np.asarray(b1, dtype='float64'), unit=unit_b),
+                                         gravity=sc.vector(np.asarray(gvec, dtype='float64'), unit='m/s^2'))
+        vs = {k: r[f'beam_aligned_unit_{k[1]}'] for k in ('ex', 'ey', 'ez')}
+        o['unit_ok'] = all(v.dtype == sc.DType.vector3 and v.unit == sc.Unit('dimensionless') and v.ndim == 0 for v in vs.values())
+        got = {k: [float(x) for x in np.asarray(v.values).reshape(3)] for k, v in vs.items()}
+        o['returned'] = True
+    except Exception as e:  # noqa: BLE001
+        o['exc'] = repr(e)[:200]
+        return o
+    if not all(math.isfinite(x) for v in got.values() for x in v):
+        o['e_frame'] = o['ortho'] = 2**30
+        return o
+    o['e_frame'] = max(G.units_of(G.mpf(got[k][a]) - want[k][a], 1e-16) for k in got for a in range(3))
+    gm = {k: tuple(G.mpf(x) for x in v) for k, v in got.items()}
+    dev = [G.dot(gm[a], gm[b]) - (1 if a == b else 0) for a, b in (('ex', 'ex'), ('ey', 'ey'), ('ez', 'ez'), ('ex', 'ey'), ('ex', 'ez'), ('ey', 'ez'))]
+    o['ortho'] = max(G.units_of(d, 1e-16) for d in dev)
+    return o
+
+
 # ------------------------------------------------------------------------------ (a) rational lattice cases
 def _replay_rational(ctx, cases, events, stats):
     S = 128  # metres per lattice unit
@@ -217,8 +351,13 @@ def _replay_rational(ctx, cases, events, stats):
             raise MachineryError(f'wavelength outside the quantifier: {lams}')
         b1r = [x * S for x in b1]
         detr = [[x * S for x in d] for d in dets]
-        res = _call(b1r, 'm', detr, lams, 'float64', gvec, binned=False)
+        res = _call(b1r, detr, lams, 'float64', gvec, _form())
         frame = G.gravity_frame(G.fvec(b1r), G.fvec(gvec))
+        c0 = items[0]
+        fo = _frame_obs(b1r, 'm', gvec, _int_frame(c0['ey'], c0['zp'], c0['ex']))
+        events.append(dict(fo, ev='frame', tid=len(events), lattice=True, g=list(g), b1=list(b1),
+                           want={'ey': c0['ey'], 'zp': c0['zp'], 'ex': c0['ex']}))
+        ctx.case(nontrivial_id=repr(('frame-rat', g, b1)) if fo['returned'] else None)
         bykey = {(tuple(c['b2']), Fraction(c['q'][0], c['q'][1])): c for c in items}
         for i, d in enumerate(dets):
             l2sq = Fraction(S * S * sum(x * x for x in d))
@@ -251,12 +390,37 @@ def _replay_rational(ctx, cases, events, stats):
 
 
 # ------------------------------------------------------------------------------ (b) physical grid
-TILTS = [('0', 0.0, 1.0), ('2^-40', 2.0 ** -40, 1.0), ('-2^-40', -(2.0 ** -40), 1.0), ('2^-34', 2.0 ** -34, 1.0),
-         ('2^-33', 2.0 ** -33, 1.0), ('2^-20', 2.0 ** -20, 1.0), ('1e-3', math.sin(1e-3), math.cos(1e-3)),
-         ('0.1', math.sin(0.1), math.cos(0.1)), ('-0.1', -math.sin(0.1), math.cos(0.1)),
-         ('1', math.sin(1.0), math.cos(1.0))]
+# (name, y, z, length of the incident beam in m): incident beam = length * (0, y, z) in the untilted frame
+TILTS = [('0', 0.0, 1.0, 1.0), ('2^-40', 2.0 ** -40, 1.0, 1.0), ('-2^-40', -(2.0 ** -40), 1.0, 1.0),
+         ('2^-34', 2.0 ** -34, 1.0, 1.0), ('2^-33', 2.0 ** -33, 1.0, 1.0), ('2^-20', 2.0 ** -20, 1.0, 1.0),
+         ('1e-3', math.sin(1e-3), math.cos(1e-3), 1.0), ('0.1', math.sin(0.1), math.cos(0.1), 1.0),
+         ('-0.1', -math.sin(0.1), math.cos(0.1), 1.0), ('1', math.sin(1.0), math.cos(1.0), 1.0),
+         # the documented dispatch threshold is an off-plane COMPONENT of 1e-10 length units of the incident beam,
+         # not an angle: a 32 m beam tilted by 2^-36 rad has 4.7e-10 m off the plane (class above: general path,
+         # reflectometry refuses), a 2^-6 m beam tilted by 2^-30 rad has 1.5e-11 m (class sub)
+         ('32m x 2^-36', 2.0 ** -36, 1.0, 32.0), ('2^-6m x 2^-30', 2.0 ** -30, 1.0, 2.0 ** -6)]
 LAMS = [0.0, 0.5, 1.0, 10.0, 100.0]  # exactly representable in float32 as well
 GMAGS = [2.0 ** -30, 9.80665, 100.0]
+# one of these operand forms (GravityDefs!ValidForm) is added to every (orientation, |g|, tilt) combination
+EXTRA_FORMS = [
+    _form(wl='grid'),
+    _form(wl='per_detector', ib='per_pixel', wl_unit='nm'),
+    _form(wl='outer', wl_unit='m'),
+    _form(wl='grid_transposed', g_unit='cm/s^2', sb_unit='mm'),
+    _form(wl='scalar', ib_unit='mm'),
+    _form(wl='outer', ib='per_pixel_mixed'),
+    _form(wl='strided', wl_unit='nm', g_unit='cm/s^2'),
+    _form(wl='binned', ib='per_pixel_mixed', sb_unit='mm', ib_unit='mm'),
+    _form(wl='per_detector', wl_unit='m', g_unit='cm/s^2'),
+    _form(wl='grid', ib='per_pixel_mixed', wl_unit='nm'),
+    _form(wl='scalar', ib='per_pixel', wl_unit='m'),
+]
+# Allowance (units of 1e-15 rad) for forms whose operands are re-expressed in another unit by a float
+# multiplication: every re-expressed operand moves by <= 2^-53 relative, so delta = |g| c lambda^2 L2^2 moves
+# by <= 5 * 2^-53 relative and the beams by 2^-53; the angle to a fixed direction moves by at most
+# (|b2| 2^-53 + delta 5 * 2^-53) / |b2'| <= 5 * 1.1e-16 * cond <= 3.6e-14 rad (cond <= 64), plus 1.1e-16 for the
+# direction of the incident beam: 40 units.  (float32 results: 1 unit of 1e-8.)
+EXTRA_ALLOW64 = 40
 
 
 def _tclass(b1, gvec):
@@ -275,66 +439,119 @@ def _tclass(b1, gvec):
     return 'above', tau
 
 
-def _replay_physical(ctx, events, stats, thorough):
+BATCH_RANK = {'zero': 0, 'sub': 1, 'band': 2, 'above': 3}  # = GravityDefs!BatchClass: the highest class present
+
+
+def _replay_physical(ctx, events, stats, thorough, pool):
     rots = G.rot24()
     if not thorough:
         rots = rots[::4]
     box = [(x, y, z) for x in (-1, 0, 1) for y in (-1, 0, 1) for z in (-1, 0, 1) if (x, y, z) != (0, 0, 0)]
     dets_l = box if thorough else [d for d in box if sum(map(abs, d)) in (1, 3)] + [(0, 1, 1), (1, -1, 0), (-1, 0, 1)]
-    variants = [('float64', False), ('float32', False), ('float64', True)] + ([('float32', True)] if thorough else [])
     ldet = 2.0
+    nd = len(dets_l)
+    ci = 0
     for ri, R in enumerate(rots):
         glat = G.matvec(R, (0, -1, 0))
         b1lat = G.matvec(R, (0, 0, 1))
         dets_rot = [G.matvec(R, d) for d in dets_l]
         for gi, gm in enumerate(GMAGS):
             cont = {}
-            for (tname, ty, tz) in TILTS:
+            base0 = None
+            for (tname, ty, tz, blen) in TILTS:
                 unit_b, scale_b = ('m', 1.0)
                 if tname == '1e-3' and ri % 2 == 1:
                     unit_b, scale_b = ('mm', 1000.0)  # same geometry expressed in millimetres
-                b1 = [float(x) for x in G.matvec(R, (0.0, ty * scale_b, tz * scale_b))]
+                b1 = [float(x) for x in G.matvec(R, (0.0, ty * blen * scale_b, tz * blen * scale_b))]
                 gvec = [float(x) * gm for x in glat]
                 detr = [[float(x) * ldet * scale_b for x in d] for d in dets_rot]
-                tclass, tau = _tclass(b1, gvec)
                 to_m = Fraction(1, 1000) if unit_b == 'mm' else Fraction(1)
                 frame = G.gravity_frame(tuple(Fraction(x) * to_m for x in b1), G.fvec(gvec))
                 refs = {}
-                for i in range(len(detr)):
+                for i in range(nd):
                     dm = tuple(Fraction(x) * to_m for x in detr[i])
                     l2sq = G.norm2(dm)
                     free_ref = G.mp_angle(frame['b1'], G.mp_vec(dm))
                     for j, lam in enumerate(LAMS):
                         delta = _delta(frame['gn'], Fraction(lam) * ANGSTROM, l2sq)
                         refs[i, j] = (G.gravity_angles(frame, dm, delta), G.gravity_angles(frame, dm, -delta), free_ref)
-                for (ldt, binned) in variants:
+                if tname == '0':
+                    base0 = (b1, refs)  # the untilted beam of this orientation: the other pixels of per_pixel_mixed
+                # ---- the frame itself
+                fo = _frame_obs(b1, unit_b, gvec, frame)
+                events.append(dict(fo, ev='frame', tid=len(events), lattice=False, g=list(glat), b1=list(b1lat),
+                                   want={'ey': [0, 0, 0], 'zp': [0, 0, 0], 'ex': [0, 0, 0]}, tilt=tname))
+                ctx.case(nontrivial_id=repr(('frame', ri, gi, tname)) if fo['returned'] else None)
+                # ---- the calls of this combination: (form, wavelength dtype, call twice with the same operands)
+                base = _form(ib_unit=unit_b, sb_unit=unit_b)
+                calls = [(base, 'float64', False)]
+                if blen == 1.0 or thorough:
+                    calls += [(base, 'float32', False), (dict(base, wl='binned'), 'float64', False)]
+                if thorough:
+                    calls.append((dict(base, wl='binned'), 'float32', False))
+                extra_form = EXTRA_FORMS[ci % len(EXTRA_FORMS)]
+                calls.append((extra_form, 'float32' if ci % 4 == 3 else 'float64', ci % 5 == 0 or extra_form['wl_unit'] == 'm'))
+                ci += 1
+                for ki, (form, ldt, twice) in enumerate(calls):
                     f32 = ldt == 'float32'
-                    res = _call(b1, unit_b, detr, LAMS, ldt, gvec, binned)
-                    if not res['returned']:
-                        ctx.violation(f'scattering_angles_with_gravity raised for tilt class {tclass}',
-                                      {'exc': res['exc'], 'incident_beam': b1, 'gravity': gvec, 'unit': unit_b})
-                    if res['refl_kind'] == 'error':
-                        ctx.violation('scattering_angle_in_yz_plane raised an exception other than ValueError',
-                                      {'exc': res.get('refl_exc'), 'incident_beam': b1, 'gravity': gvec})
-                    allow = _units(tau, f32) + 1
-                    for i in range(len(detr)):
-                        for j, lam in enumerate(LAMS):
-                            ref, ref_low, free_ref = refs[i, j]
-                            o = _observe(res, i, j, ref, ref_low, free_ref, f32)
-                            if o['judged'] and tclass == 'zero':
-                                k = 'worst32' if f32 else 'worst64'
-                                stats[k] = max(stats[k], o['e_tt'])
-                            events.append({'ev': 'phys', 'tid': len(events), 'glat': list(glat), 'b1lat': list(b1lat),
-                                           'det': list(dets_rot[i]), 'tilt': tname, 'tclass': tclass, 'lam_pos': lam > 0,
-                                           'f32': f32, 'binned': binned, 'allow': allow, 'o': o,
-                                           'in': {'incident_beam': b1, 'unit': unit_b, 'scattered_beam': detr[i],
-                                                  'gravity_m_s2': gvec, 'wavelength_angstrom': lam,
-                                                  'got_two_theta': float(res['tt'][i][j]) if res['returned'] else None,
-                                                  'want_two_theta': float(ref['tt']), 'gravity_free': float(free_ref)}})
-                            ctx.case(nontrivial_id=repr(('phys', ri, gi, tname, i, j, ldt, binned))
-                                     if (o['returned'] and o['judged']) else None)
-                    if ldt == 'float64' and not binned and tname in ('2^-34', '2^-33') and res['returned']:
-                        cont[tname] = (res['tt'], tau)
+                    mixed = form['ib'] == 'per_pixel_mixed'
+                    fi, fs = L_FACTOR[form['ib_unit']] / scale_b, L_FACTOR[form['sb_unit']] / scale_b
+                    own = [(base0 if (mixed and i % 2 == 0) else (b1, refs)) for i in range(nd)]
+                    b1_vals = [[x * fi for x in o[0]] for o in own]
+                    det_vals = [[x * fs for x in d] for d in detr]
+                    reexpressed = fi != 1.0 or fs != 1.0 or form['wl_unit'] != 'angstrom' or form['g_unit'] != 'm/s^2'
+                    extra = (1 if f32 else EXTRA_ALLOW64) if reexpressed else 0
+                    classes = {}
+                    for o_b1 in {tuple(v) for v in b1_vals}:
+                        classes[o_b1] = _tclass(list(o_b1), gvec)  # in the unit the incident beam is given in
+                    pix_class = [classes[tuple(v)] for v in b1_vals]
+                    bclass = max((c for c, _ in pix_class), key=BATCH_RANK.get)
+                    kinds = sorted({c for c, _ in pix_class}, key=BATCH_RANK.get)
+                    sidx = ci % len(LAMS)
+                    args = (b1_vals[0] if form['ib'] == 'one' else b1_vals, det_vals, LAMS, ldt, gvec, form, sidx)
+
+                    def emit(res, use, form=form, f32=f32, own=own, pix_class=pix_class, bclass=bclass, kinds=kinds,
+                             extra=extra, ldt=ldt, tname=tname, b1_vals=b1_vals, det_vals=det_vals, gvec=gvec,
+                             ident=(ri, gi, tname, ki), glat=glat, b1lat=b1lat, dets_rot=dets_rot):
+                        if not res['returned']:
+                            ctx.violation(f'scattering_angles_with_gravity raised for tilt class {bclass}'
+                                          + ('' if form['wl'] in ('outer', 'binned') and form['ib'] == 'one' else ' (non-default operand form)'),
+                                          {'exc': res['exc'], 'incident_beam': b1_vals[-1], 'gravity': gvec, 'form': form})
+                        if res['refl_kind'] == 'error':
+                            ctx.violation('scattering_angle_in_yz_plane raised an exception other than ValueError',
+                                          {'exc': res.get('refl_exc'), 'incident_beam': b1_vals[-1], 'gravity': gvec, 'form': form})
+                        for i in range(nd):
+                            tclass, tau = pix_class[i]
+                            allow = _units(tau, f32) + 1
+                            other = [k for k in kinds if k != tclass]
+                            for j, lam in enumerate(LAMS):
+                                if not res['present'][i, j]:
+                                    continue
+                                ref, ref_low, free_ref = own[i][1][i, j]
+                                o = _observe(res, i, j, ref, ref_low, free_ref, f32)
+                                if use == 'first' and o['judged'] and tclass == 'zero' and form['ib'] == 'one':
+                                    k = 'worst32' if f32 else 'worst64'
+                                    stats[k] = max(stats[k], o['e_tt'])
+                                events.append({'ev': 'phys', 'tid': len(events), 'glat': list(glat), 'b1lat': list(b1lat),
+                                               'det': list(dets_rot[i]), 'tilt': tname, 'tclass': tclass, 'bclass': bclass,
+                                               'other_class': other[0] if other else tclass, 'form': form, 'extra': extra,
+                                               'use': use, 'lam_pos': lam > 0, 'f32': f32, 'binned': form['wl'] == 'binned',
+                                               'allow': allow, 'o': o,
+                                               'in': {'incident_beam': b1_vals[i], 'scattered_beam': det_vals[i],
+                                                      'gravity_m_s2': gvec, 'wavelength_angstrom': lam,
+                                                      'got_two_theta': float(res['tt'][i][j]) if res['returned'] else None,
+                                                      'want_two_theta': float(ref['tt']), 'gravity_free': float(free_ref)}})
+                                ctx.case(nontrivial_id=repr(('phys', ident, i, j, ldt, _form_name(form), use))
+                                         if (o['returned'] and o['judged']) else None)
+
+                    res = _call(*args, twice=twice)
+                    emit(res, 'first')
+                    if twice:
+                        emit(res['second'], 'second')
+                    if (ci * 5 + ki) % 13 == 0:
+                        pool.append((args, emit))
+                    if ki == 0 and tname in ('2^-34', '2^-33') and res['returned']:
+                        cont[tname] = (res['tt'], pix_class[0][1])
             if len(cont) == 2:
                 (below, _), (above, tau_a) = cont['2^-34'], cont['2^-33']
                 for i in range(len(dets_rot)):
@@ -348,6 +565,18 @@ def _replay_physical(ctx, events, stats, thorough):
                         ctx.case(nontrivial_id=repr(('cont', ri, gi, i, j)))
 
 
+def _form_name(form):
+    return (f'wavelength {form["wl"]} [{form["wl_unit"]}], incident beam {form["ib"]} [{form["ib_unit"]}], '
+            f'scattered beam [{form["sb_unit"]}], gravity [{form["g_unit"]}]')
+
+
+def _replay_again(ctx, pool):
+    """Item 6 of HARDENING.md: a sample of this run's own calls once more at the end, in reverse order, judged
+    against the same oracle values as the first time."""
+    for args, emit in reversed(pool):
+        emit(_call(*args), 'again')
+
+
 # ------------------------------------------------------------------------------ main
 def _key(ev, clause):
     if clause == 'general_path_two_theta_is_that_of_a_beam_lowered_along_gravity':
@@ -357,8 +586,18 @@ def _key(ev, clause):
     if ev['ev'] == 'rat':
         path = 'perpendicular beam (optimised path)' if G.dot(ev['g'], ev['b1']) == 0 else 'tilted beam (general path)'
         return f'lattice setup, {path}: {clause}'
+    if ev['ev'] == 'frame':
+        return f'beam_aligned_unit_vectors ({"lattice setup" if ev["lattice"] else "tilted beam"}): {clause}'
     var = ('float32' if ev['f32'] else 'float64') + (' binned' if ev['binned'] else ' dense')
-    return f'tilt class {ev["tclass"]}, {var} wavelength: {clause}'
+    key = f'tilt class {ev["tclass"]}, {var} wavelength: {clause}'
+    form = ev['form']
+    if not (form['wl'] in ('outer', 'binned') and form['ib'] == 'one' and form['wl_unit'] == 'angstrom'
+            and form['g_unit'] == 'm/s^2' and form['ib_unit'] == form['sb_unit']):
+        # one suffix for all non-default forms (the form itself is in the event): keys must not multiply
+        key += ' [non-default operand form]'
+    if ev['use'] != 'first':
+        key += ' [second use]'
+    return key
 
 
 def run(ctx):
@@ -378,7 +617,7 @@ def run(ctx):
     cfg = 'MC_Gravity_thorough.cfg' if thorough else 'MC_Gravity.cfg'
     res = ctx.tlc('conv/MC_Gravity.tla', cfg, workers=WORKERS, timeout=2400)
     require_ok(ctx, res, 'Gravity model')
-    for neg in ('plus_g', 'opt_no_x', 'refl_accepts'):
+    for neg in ('plus_g', 'opt_no_x', 'refl_accepts', 'all_pixels'):
         ctx.tlc('conv/MC_Gravity.tla', f'Neg_Gravity_{neg}.cfg', workers=WORKERS, expect_error=True, timeout=300)
 
     # ---- 2. cases enumerated by TLC
@@ -396,7 +635,10 @@ def run(ctx):
     stats = {'worst64': 0, 'worst32': 0}
     _replay_rational(ctx, cases, events, stats)
     n_rat = len(events)
-    _replay_physical(ctx, events, stats, thorough)
+    pool = []
+    _replay_physical(ctx, events, stats, thorough, pool)
+    _replay_again(ctx, pool)
+    ctx.extra['calls_replayed_again'] = len(pool)
     ctx.extra['worst_two_theta_error_perpendicular'] = {'float64_1e-15rad': stats['worst64'],
                                                          'float32_1e-8rad': stats['worst32'], 'tolerance': TOL}
     for e in (events[0], events[n_rat], events[-1]):
